@@ -213,12 +213,15 @@ def check_c11(tier):
         res = run_space(exe, "c11", tier, os.path.join(b.dir, "c11.out"), solution=s, deadline=(per * 12 if s in VECTOR_SOLUTIONS else per))
         add_violations(rep, res, "C11")
         results.append(res)
+        resl = run_space(exe, "c11l", tier, os.path.join(b.dir, "c11l.out"), solution=s, deadline=per)
+        add_violations(rep, resl, "C11")
+        results.append(resl)
         if tier == "thorough":
             for sp in ("c11all", "c11allp"):
                 res = run_space(exe, sp, tier, os.path.join(b.dir, "c11.out"), solution=s, deadline=per)
                 add_violations(rep, res, "C11")
                 results.append(res)
-    cover(rep, results, "; one closed space per catalogue solution: set/get on first/middle/last/unknown/empty names x values {1.5, marker(, -2.25)}, init_param, purge, sanity, display, set_vec/get_vec with lengths {0,3(,1,30)} on every vector, and set_vec relative to the stored contents (one entry appended, last entry dropped, same contents again)")
+    cover(rep, results, "; one closed space per catalogue solution: set/get on first/middle/last/unknown/empty names x values {1.5, marker, marker's neighbour(, -2.25)}, a long double space per solution with the decimal literal -12345.67L, init_param, purge, sanity, display, set_vec/get_vec with lengths {0,3(,1,30)} on every vector, and set_vec relative to the stored contents (one entry appended, last entry dropped, same contents again)")
     rep.coverage["solutions"] = len(sols)
     rep.assumptions += ["values restricted to the alphabet; names to first/middle/last registered + unknown + empty", "the two self-test fixtures are excluded as the property states"]
     return rep.finish()
@@ -239,14 +242,19 @@ def check_c16(tier):
     add_violations(rep, res1n, "C16", build="exit")
     res2n = run_space(exx, "c16n", tier, os.path.join(bx.dir, "c16nx.out"))
     add_violations(rep, res2n, "C16", build="exceptions")
+    # (i'') / (ii'') failed calls on handles that own large vectors, both builds
+    res1v = run_space(exe, "c16v", tier, os.path.join(b.dir, "c16v.out"))
+    add_violations(rep, res1v, "C16", build="exit")
+    res2v = run_space(exx, "c16v", tier, os.path.join(bx.dir, "c16vx.out"))
+    add_violations(rep, res2v, "C16", build="exceptions")
     # (iii) empty history: every solution-dependent API entry before any masa_init
     res3 = run_empty_history(b, exe, rep)
-    cover(rep, [res1, res2, res1n, res2n])
-    fatal_t = sum(1 for r in (res1, res2, res1n, res2n) for t in r["trans"] if t[3])
+    cover(rep, [res1, res2, res1n, res2n, res1v, res2v])
+    fatal_t = sum(1 for r in (res1, res2, res1n, res2n, res1v, res2v) for t in r["trans"] if t[3])
     rep.coverage["fatal_transitions_checked"] = fatal_t
     rep.coverage["empty_history_calls"] = res3
     rep.coverage["states"] += res3; rep.coverage["transitions"] += res3; rep.coverage["traces_validated_against_impl"] += res3
-    rep.assumptions += ["same alphabet as C12 plus select(unknown), init(new handle, bogus name), init(existing handle, misspelt name), select(handle spelled like a solution name of the alphabet) in both registries; space c16n: handles {a, euler_1d} that may be spelled like the catalogue name of their own or another solution, select of registered/unregistered/decorated spellings; exit() build observed through wait status and captured stdout, exception build through catch(int)"]
+    rep.assumptions += ["same alphabet as C12 plus select(unknown), init(new handle, bogus name), init(existing handle, misspelt name), select(handle spelled like a solution name of the alphabet) in both registries; space c16v: two handles owning 600-entry vectors (radiation, cp_normal), failed re-initialisation of either handle and of a new one, select(unknown): vectors of every instance unchanged by the failed call; space c16n: handles {a, euler_1d} that may be spelled like the catalogue name of their own or another solution, select of registered/unregistered/decorated spellings; exit() build observed through wait status and captured stdout, exception build through catch(int)"]
     return rep.finish()
 
 
